@@ -1,4 +1,4 @@
-import FteikVerif.Generated.KSolver2
+import FteikVerif.Generated.KSweep2
 import FteikVerif.Proofs.GenLemmas
 /-!
 # Tie C: the hand-written model agrees with the definitions translated from the source (`_fteik2d.py`, `_common.py`)
